@@ -25,13 +25,16 @@ Inductive cres (S : Type) : Type :=
 | CCnt (s : S)             (* continue *)
 | CRet (v : Z)             (* return v *)
 | CUndef (what : string)
-| CUnsup (what : string).
+| CUnsup (what : string)
+| CRetS (v : Z) (s : S).   (* return v from a function that writes through its pointer arguments: s is the
+                              final state (the objects reached from the arguments included) *)
 Arguments CNorm {S} s.
 Arguments CBrk {S} s.
 Arguments CCnt {S} s.
 Arguments CRet {S} v.
 Arguments CUndef {S} what.
 Arguments CUnsup {S} what.
+Arguments CRetS {S} v s.
 
 Inductive fres : Type :=
 | FVal (v : Z)
@@ -60,6 +63,7 @@ Fixpoint c_loop {S} (fuel : nat) (cdef cond : S -> bool) (body inc : S -> cres S
           | CRet v => CRet v
           | CUndef w => CUndef w
           | CUnsup w => CUnsup w
+          | CRetS v s' => CRetS v s'
           end
         else CNorm s
       else CUndef "loop condition"
@@ -82,6 +86,27 @@ Definition c_fun {S} (r : cres S) : fres :=
   | CCnt _ => FUnsup "continue outside a loop"
   | CUndef w => FUndef w
   | CUnsup w => FUnsup w
+  | CRetS v _ => FVal v
+  end.
+
+(* function boundary of a function that writes through its pointer arguments: value and final state *)
+Inductive fres_st (S : Type) : Type :=
+| FValS (v : Z) (s : S)
+| FUndefS (what : string)
+| FUnsupS (what : string).
+Arguments FValS {S} v s.
+Arguments FUndefS {S} what.
+Arguments FUnsupS {S} what.
+
+Definition c_fun_st {S} (r : cres S) : fres_st S :=
+  match r with
+  | CRetS v s => FValS v s
+  | CRet v => FUnsupS "return without the final state"
+  | CNorm _ => FUndefS "control reaches the end of a non-void function"
+  | CBrk _ => FUnsupS "break outside a loop"
+  | CCnt _ => FUnsupS "continue outside a loop"
+  | CUndef w => FUndefS w
+  | CUnsup w => FUnsupS w
   end.
 
 (* call of a translated function inside a statement *)
@@ -146,3 +171,18 @@ Definition p_set {A} (p : c_ptr A) (i : Z) (v : A) : c_ptr A :=
   | Some (l, off) => Some (zupd l (off + i) v, off)
   | None => None
   end.
+
+(* ---------- pointers to one struct that may be NULL (p->old) ---------- *)
+Definition o_ok {A} (o : option A) : bool := match o with Some _ => true | None => false end.
+Definition o_get {A} (d : A) (o : option A) : A := match o with Some x => x | None => d end.
+
+(* ---------- references: a local pointer to an element of one fixed array of structs is NULL (None) or the
+   index of the element; the array it refers to is fixed per variable by the translator, and the element is
+   read from the CURRENT state at each use, so writes through another path to the same element are seen.
+   Assumption: the entries of such an array are pairwise distinct objects. ---------- *)
+Definition c_ref : Type := option Z.
+Definition r_isnull (r : c_ref) : bool := match r with None => true | Some _ => false end.
+Definition r_ok {A} (r : c_ref) (arr : c_ptr A) : bool :=
+  match r with Some i => p_ok arr i | None => false end.
+Definition r_get {A} (d : A) (r : c_ref) (arr : c_ptr A) : A :=
+  match r with Some i => p_get d arr i | None => d end.
